@@ -189,6 +189,18 @@ theorem inv_step {E : Env P} {data : Bytes} {a : Abs} {r r' : Regs P} {op : Op}
     · simp at hs
       subst hs
       exact ⟨i1, i2, i3, i4, i5, i6, i7, by simp [absStep], i9⟩
+  | assertWeakened =>
+    simp only [step] at hs
+    split at hs
+    · simp at hs
+      subst hs
+      exact ⟨i1, i2, i3, i4, i5, i6, i7, i8, i9⟩
+    · split at hs
+      · cases hs
+      · simp at hs
+        subst hs
+        exact ⟨i1, i2, i3, i4, i5, i6, i7, i8, i9⟩
+      · cases hs
   | assertDebug =>
     simp only [step] at hs
     split at hs
@@ -302,6 +314,7 @@ theorem runFrom_guarded_called {E : Env P} {data k : Bytes} {p : P} {wd : Option
       | orLookupByAddr => simp only [step] at hs; (repeat' split at hs) <;> simp at hs
       | touchPeer => simp only [step] at hs; (repeat' split at hs) <;> simp at hs
       | assertDebug => simp only [step] at hs; (repeat' split at hs) <;> simp at hs
+      | assertWeakened => simp only [step] at hs; (repeat' split at hs) <;> simp at hs
       | appendData => simp [step] at hs
       | callAddr => simp only [step] at hs; (repeat' split at hs) <;> simp at hs
       | callAddrData => simp only [step] at hs; (repeat' split at hs) <;> simp at hs
@@ -359,6 +372,7 @@ theorem runFrom_guarded_returned {E : Env P} {data kb : Bytes} {p : P} :
       | orLookupByAddr => simp only [step] at hs; (repeat' split at hs) <;> simp at hs
       | touchPeer => simp only [step] at hs; (repeat' split at hs) <;> simp at hs
       | assertDebug => simp only [step] at hs; (repeat' split at hs) <;> simp at hs
+      | assertWeakened => simp only [step] at hs; (repeat' split at hs) <;> simp at hs
       | appendData => simp [step] at hs
       | callAddr => simp only [step] at hs; (repeat' split at hs) <;> simp at hs
       | callAddrData => simp only [step] at hs; (repeat' split at hs) <;> simp at hs
